@@ -52,6 +52,8 @@ class Recorder:
             except Exception as exc:
                 c.internal_error(n, 'observe (status XML-RPC)', exc)
                 return self._dead(n)
+        if 'sm' not in o:
+            return self._dead(n)          # the instance was interrupted by the watchdog during the observation
         return o
 
     # -- publisher callbacks -----------------------------------------------------------------------------------
